@@ -46,7 +46,7 @@ class Replayer:
             rs = os.path.join(prep.VERIF, 'replay', mod + '_replay.rs')
             if os.path.exists(rs):
                 with open(os.path.join(self.src, rel), 'a') as fh:
-                    fh.write('\n#[cfg(test)]\n#[path = "%s"]\nmod verif_replay;\n' % rs)
+                    fh.write('\n#[cfg(test)]\n#[path = "%s"]\npub(crate) mod verif_replay;\n' % rs)
         self.key = key
 
     def run(self, mod, test, lines, release=False, env=None, timeout=1800):
